@@ -216,7 +216,7 @@ class C09(Prop):
         "uniformPositive_pos", "uniform_positive_unit", "gaussian_in_bounds", "gauss_table_sizes", "gamma_positive_real_partial", "dirichlet_simplex_real_partial",
         "mem_bytes", "floatstring_fits", "samplers_replay", "mt_constants_published", "model_constants_regenerated", "temper_linear",
         "seed0_create_replays", "seed0_init_replays", "rand64_init_replays", "dump_in_bounds", "dump_in_bounds_reinit", "dump_prefix_out_of_bounds",
-        "rand64_deal_spec_abstract", "rand64_deal_spec_binary64", "vitter_a_terminates", "rand64_deal_small_terminates", "rand64_deal_prefix_out_of_range", "rand64_deal_prefix_defect_carrier",
+        "rand64_deal_spec_abstract", "rand64_deal_spec_binary64", "vitter_a_terminates", "rand64_deal_small_terminates", "rand64_deal_int64_in_range", "rand64_deal_skip_in_range", "rand64_deal_prefix_out_of_range", "rand64_deal_prefix_defect_carrier",
         "mt_top_bit_clear_within", "roll_accepts_top_clear", "roll_terminates_mt19937", "roll_terminates_on_stream", "on_stream_closed", "roll_terminates_fast", "roll64_terminates", "roll_is_first_accepted_word", "roll64_is_first_accepted_word", "uniformPositive_terminates", "uniformPositive_is_first_nonzero_word", "mem_floatstring_total", "gamma_integer_dirichlet_total")] + ["EaselModel.MTP.fill_correct", "EaselModel.MTP.stream_eq_spec"]
     claimed = True
     technique = "Lean 4 proof (generic in-place-refill = recurrence theorem, stream invariant by induction, roll/deal arithmetic, GF(2) linear-recurrence bound on runs of the top output bit for loop termination) + exact differential correspondence of the executable model with the ASan/UBSan-built C generators"
@@ -237,7 +237,7 @@ class C09(Prop):
     assumptions = ["choose_arbitrary_seed's time()/getpid()/clock() are explicit inputs of the model (harness interposes the three symbols under an `env` op)",
                    "rejection loops modelled with fuel 10^6. Roll / rand64_Roll / UniformPositive: PROVED to terminate for every seed on MT19937, MT19937-64 and the LCG (within 19999, 19999, 2^31+1 resp. 624/2 draws: roll_terminates_*, roll64_terminates, uniformPositive_terminates); Gaussian, Gamma, Deal64 method D: floating-point acceptance tests, probability-1 termination only (fuel)",
                    "esl_rnd_Deal's double comparison equals the exact rational comparison (n < 2^31; separation 2^20 ulp) - checked by the differential run only",
-                   "esl_rand64_Deal: int64 skeleton modelled in Int (no overflow for 13*m < 2^63, n < 2^63); the abstract-carrier theorem assumes FloatFacts F B (Random/Deal64Abs.lean: 27 facts about single rounded operations, every one used by the proof, each sampled on binary64 every run; the lower halves of exp_unit / mul_int_lt / floor_lt are now derived theorems, not assumptions) and n <= B = 2^53 (vitter_a's skip loop relies on the integer-valued double `top` reaching exactly 0)",
+                   "esl_rand64_Deal: int64 skeleton modelled in Int, PROVED to stay within +-2^57 for n <= 2^53 (rand64_deal_int64_in_range, rand64_deal_skip_in_range: no int64 wrap-around reachable); the abstract-carrier theorem assumes FloatFacts F B (Random/Deal64Abs.lean: 27 facts about single rounded operations, every one used by the proof, each sampled on binary64 every run; the lower halves of exp_unit / mul_int_lt / floor_lt are now derived theorems, not assumptions) and n <= B = 2^53 (vitter_a's skip loop relies on the integer-valued double `top` reaching exactly 0)",
                    "esl_rand64_Deal cost: method D's slow path runs ~n/m iterations per rejected squeeze (observed: m=300, n=2^52 -> S=1.8e12); the generator keeps n/m <= 2e6 for m >= 2 (cost, not range: outside the property)",
                    "test hooks pokeraw/pokeraw64 (overwrite a table word k draws ahead) and env (time/pid/clock) are harness-only; every table content is a state of the generator's single cycle",
                    "Python reference streams in the monitor (MT19937, MT19937-64, LCG, mix3) are written from the published recurrences; self-checked against init_genrand64(5489) -> 14514284786278117030"]
@@ -263,7 +263,31 @@ class C09(Prop):
                                            "what": "every field of FloatFacts (assumptions of rand64_deal_spec_abstract) sampled on IEEE binary64 incl. +-0, +-inf, NaN, subnormals, B=2^53"}}
 
     def corpus(self, ctx):
-        return [dict(c, sticky=1) for c in self._corpus()]
+        return [dict(c, sticky=1) for c in self._corpus() + self._roll64_pow2_corpus()]
+
+    def _roll64_pow2_corpus(self):
+        """esl_rand64_Roll(n) for EVERY power of two n = 2^k (k = 1..63) and n = 2^k - 1, 2^k + 1, at several stream positions
+        (fresh table, last word / exhausted / first word after a refill, deep in the stream), on three seeds; and the same n with
+        the next raw word forced onto the accept/reject boundary n*factor - 1, n*factor, and onto factor - 1, factor, 2^64 - 1"""
+        ns = []
+        for k in range(1, 64):
+            ns += [(1 << k) - 1, 1 << k, (1 << k) + 1]
+        ns.append(M64)
+        out = []
+        for seed, pos in ((1, 0), (42, 311), (42, 312), (18446744073709551615, 313), (5489, 1000), (4294967296, 623)):
+            ops = ["new64 seed=%d" % seed] + (["u64 k=%d" % pos] if pos else []) + ["pos64"]
+            for n in ns: ops.append("roll64 n=%d" % n)
+            ops += ["pos64", "u64 k=2"]
+            out.append({"name": "roll64-pow2-seed%d-pos%d" % (seed, pos), "ops": ops})
+        for which in range(5):
+            ops = ["new64 seed=7", "u64 k=%d" % (300 + which)]
+            for n in ns:
+                f = M64 // n
+                w = [n * f - 1, min(M64, n * f), f - 1, f, M64][which]
+                ops += ["pokeraw64 w=%d" % untemper64(w), "roll64 n=%d" % n]
+            ops += ["pos64", "u64 k=2"]
+            out.append({"name": "roll64-pow2-boundary%d" % which, "ops": ops})
+        return out
 
     GAMMA_A = [0.01, 0.5, 0.999, 1.0, 1.5, 2.0, 2.999, 3.0, 3.0000001, 3.5, 7.0, 11.0, 12.0, 12.5, 50.0, 1000.0]
 
